@@ -27,6 +27,7 @@ type SpecEnv struct {
 	st, old    *State
 	loopIdxKey string
 	visitedKey string
+	loopVar    types.Object
 	frameFn    *FuncInfo // for resolving locals by name
 	frameLit   ast.Node
 	noLocals   bool
@@ -312,6 +313,11 @@ func (x *Exec) specIdent(e *ast.Ident, env *SpecEnv) TV {
 			panic("spec: loopIdx outside an indexed loop")
 		}
 		return TV{V: x.getHeap(env.st, env.loopIdxKey), T: types.Typ[types.Int]}
+	case "loopvar":
+		if env.loopVar == nil {
+			panic("spec: loopvar: no unique local is both tested in the loop condition and assigned in the loop")
+		}
+		return TV{V: env.st.vars[env.loopVar], T: env.loopVar.Type()}
 	case "visited":
 		if env.visitedKey == "" {
 			panic("spec: visited outside a map range loop")
